@@ -1,19 +1,24 @@
-"""SPIKE: run-time contract tier (RTC) — shared harness.
+"""Run-time contract tier (RTC, the *bounded* stand-in) — shared harness.
 
-- hygiene(): private numba cache dir + tolerant cache writes (see DESIGN section 4)
+- hygiene(rank): private numba cache dir per worker rank + tolerant cache writes (DESIGN section 4)
 - Session: sidecar contract wrappers on the REAL functions (monkeypatch incl. earlier-bound references), evaluation counters,
   findings collected (never raised inside library code)
 - run_sharded(): process pool over a deterministic case enumeration (worker i takes cases with index % n == i) under a time budget
-- report(): KNOWN-FINDING / VIOLATION lines, replay files, evidence JSON conforming to EVIDENCE.schema.json
+- props modules implement: PROP, cases(tier, seed), check_case(sess, case) -> number of public calls, nontrivial(case), install(sess),
+  SCOPE (dict tier -> text), RULE, ASSUMPTIONS, REQUIRED_CONTRACTS; optional extra_cases(tier, seed) (size-boundary cases), random_case(rnd, tier)
 """
-import os, sys, json, time, hashlib, importlib, collections, multiprocessing as mp, traceback
+import os, sys, json, time, hashlib, importlib, collections, multiprocessing as mp, traceback, random
 
 ROOT = os.path.dirname(os.path.dirname(os.path.abspath(__file__)))
+REPO = os.environ.get("VERIF_REPO", "/repo")
 
 
-def hygiene():
-    os.environ.setdefault("NUMBA_CACHE_DIR", os.path.join(ROOT, ".cache", "numba", str(os.getpid() % 64)))
+def hygiene(rank=0):
+    os.environ["NUMBA_CACHE_DIR"] = os.path.join(ROOT, ".cache", "numba", f"r{rank}")
     os.makedirs(os.environ["NUMBA_CACHE_DIR"], exist_ok=True)
+    os.environ.setdefault("GROUPBY_LIB_VERIF", "1")
+    os.environ.setdefault("NUMBA_NUM_THREADS", "2")      # 16 worker processes x numba's default 16 prange threads oversubscribes the machine 16-fold
+    if REPO not in sys.path: sys.path.insert(0, REPO)
     import warnings; warnings.filterwarnings("ignore")
     import numba.core.caching as c
     if not getattr(c.Cache.save_overload, "_tolerant", False):
@@ -37,21 +42,23 @@ class Session:
     def __init__(self, prop):
         self.prop = prop
         self.evals = collections.Counter()
-        self.findings = {}          # signature -> smallest finding
+        self.findings = {}          # (signature, known-entry index or None) -> smallest finding
         self.nfindings = collections.Counter()
         self.current_case = None
         self._undo = []
+        self.known = [e for e in load_known() if e.get("status") == "known" and e.get("tier", "B") == "B"]
 
     # -- contract wrappers -------------------------------------------------
-    def wrap(self, modname, qualname, requires=None, ensures=None, also=()):
-        """replace modname.qualname by a monitoring wrapper; `also` lists (module, attr) pairs that hold an earlier-bound reference"""
+    def wrap(self, modname, qualname, requires=None, ensures=None, also=(), snapshot=None):
+        """replace modname.qualname by a monitoring wrapper; `also` lists (module, attr) pairs that hold an earlier-bound reference.
+        requires(*a, **k) -> message or None; snapshot(*a, **k) -> old-state object; ensures(out, old, *a, **k) if snapshot else ensures(out, *a, **k)"""
         mod = importlib.import_module(modname)
         owner, attr = mod, qualname
         if "." in qualname:
             cls, attr = qualname.split(".", 1); owner = getattr(mod, cls)
         real = owner.__dict__[attr] if isinstance(owner, type) else getattr(owner, attr)
-        is_static = isinstance(real, staticmethod)
-        fn = real.__func__ if is_static else real
+        is_static = isinstance(real, staticmethod); is_class = isinstance(real, classmethod)
+        fn = real.__func__ if (is_static or is_class) else real
         name = f"{modname.split('.')[-1]}.{qualname}"
         sess = self
         def wrapper(*a, **k):
@@ -60,20 +67,26 @@ class Session:
                 try: msg = requires(*a, **k)
                 except Exception as ex: msg = f"requires raised {type(ex).__name__}: {ex}"
                 if msg: sess.record("pre", name, msg, None)
+            old = None
+            if snapshot is not None:
+                try: old = snapshot(*a, **k)
+                except Exception as ex: old = None
             out = fn(*a, **k)
             if ensures is not None:
-                try: msg = ensures(out, *a, **k)
+                try: msg = ensures(out, old, *a, **k) if snapshot is not None else ensures(out, *a, **k)
                 except Exception as ex: msg = f"ensures raised {type(ex).__name__}: {ex}"
                 if msg: sess.record("post", name, msg, None)
             return out
-        wrapper.__wrapped__ = fn; wrapper.__name__ = getattr(fn, "__name__", attr)
-        for a_ in ("py_func", "__nb_func__"):
-            if hasattr(fn, a_): setattr(wrapper, a_, getattr(fn, a_))
-        new = staticmethod(wrapper) if is_static else wrapper
+        wrapper.__wrapped__ = fn; wrapper.__name__ = getattr(fn, "__name__", attr); wrapper.__doc__ = getattr(fn, "__doc__", None)
+        for a_ in ("py_func", "__nb_func__", "__signature__"):
+            if hasattr(fn, a_):
+                try: setattr(wrapper, a_, getattr(fn, a_))
+                except Exception: pass
+        new = staticmethod(wrapper) if is_static else (classmethod(wrapper) if is_class else wrapper)
         setattr(owner, attr, new); self._undo.append((owner, attr, real))
         for m2, a2 in also:
             o2 = importlib.import_module(m2)
-            if getattr(o2, a2) is fn or getattr(o2, a2) is real:
+            if getattr(o2, a2, None) is fn or getattr(o2, a2, None) is real:
                 setattr(o2, a2, wrapper); self._undo.append((o2, a2, real))
         return wrapper
 
@@ -83,23 +96,55 @@ class Session:
 
     # -- findings ----------------------------------------------------------
     def record(self, kind, function, clause, detail, case=None):
-        f = Finding(property=self.prop, kind=kind, function=function, clause=str(clause)[:200], detail=detail,
+        f = Finding(property=self.prop, kind=kind, function=function, clause=str(clause)[:240], detail=detail,
                     case=case if case is not None else self.current_case)
-        sig = f.signature(); self.nfindings[sig] += 1
+        ki = next((i for i, e in enumerate(self.known) if matches(e, f)), None)     # keep new and known findings apart: a known one must never shadow a new one
+        sig = (f.signature(), ki); self.nfindings[json.dumps([list(f.signature()), ki])] += 1
         if sig not in self.findings or f.size() < self.findings[sig].size(): self.findings[sig] = f
 
     def export(self):
-        return {"evals": dict(self.evals), "findings": [dict(f) for f in self.findings.values()],
-                "nfindings": {json.dumps(k): v for k, v in self.nfindings.items()}}
+        return {"evals": dict(self.evals), "findings": [dict(f) for f in self.findings.values()], "nfindings": dict(self.nfindings)}
 
 
 # ----------------------------------------------------------------------------- sharded driver
+def canon(case): return hashlib.sha1(json.dumps(case, sort_keys=True, default=str).encode()).hexdigest()
+
+
+def generic_worker(mod, rank, nprocs, tier, seed, budget):
+    sess = Session(mod.PROP); mod.install(sess)
+    t0 = time.time(); ncase = calls = 0; samples = []; complete = True; seen_nt = set()
+    def run(case):
+        nonlocal ncase, calls
+        ncase += 1; sess.current_case = case
+        try: calls += mod.check_case(sess, case)
+        except Exception as ex:
+            sess.record("crash", "harness", f"check_case raised {type(ex).__name__}", traceback.format_exc()[-800:], case)
+        if mod.nontrivial(case):
+            seen_nt.add(canon(case))
+            if len(samples) < 3 and (ncase % 7 == 1): samples.append(case)
+    extra = list(mod.extra_cases(tier, seed)) if hasattr(mod, "extra_cases") else []
+    for i, case in enumerate(extra):                 # size-boundary / designed cases first: they must never be cut by the time cap
+        if i % nprocs == rank: run(case)
+    main_budget = budget * (0.85 if hasattr(mod, "random_case") else 1.0)
+    for i, case in enumerate(mod.cases(tier, seed)):
+        if i % nprocs != rank: continue
+        if time.time() - t0 > main_budget: complete = False; break
+        run(case)
+    if hasattr(mod, "random_case"):
+        rnd = random.Random(seed * 1000003 + rank); tl = time.time(); lim = max(2.0, budget - (time.time() - t0)) if complete else budget * 0.15
+        while time.time() - tl < min(lim, budget * 0.3):
+            run(mod.random_case(rnd, tier))
+    out = sess.export(); out.update(cases=ncase, calls=calls, nontrivial_hashes=sorted(seen_nt)[:200000], n_nontrivial=len(seen_nt), samples=samples, complete=complete, wall=time.time() - t0)
+    return out
+
+
 def _worker(args):
     modname, rank, nprocs, tier, seed, budget = args
     try:
-        hygiene()
+        hygiene(rank)
         mod = importlib.import_module(modname)
-        return mod.worker(rank, nprocs, tier, seed, budget)
+        if hasattr(mod, "worker"): return mod.worker(rank, nprocs, tier, seed, budget)
+        return generic_worker(mod, rank, nprocs, tier, seed, budget)
     except Exception:
         return {"crash": traceback.format_exc(), "rank": rank}
 
@@ -110,61 +155,48 @@ def run_sharded(modname, tier, seed, budget, nprocs=None):
     with ctx.Pool(nprocs) as pool:
         parts = pool.map(_worker, [(modname, r, nprocs, tier, seed, budget) for r in range(nprocs)])
     merged = {"evals": collections.Counter(), "findings": {}, "nfindings": collections.Counter(), "cases": 0, "calls": 0,
-              "distinct_nontrivial": 0, "samples": [], "complete": True, "crashes": [], "scope": None}
+              "distinct_nontrivial": 0, "samples": [], "complete": True, "crashes": []}
+    nt = set(); nt_count = 0
     for p in parts:
         if "crash" in p: merged["crashes"].append(p["crash"]); continue
         merged["evals"].update(p["evals"]); merged["cases"] += p["cases"]; merged["calls"] += p["calls"]
-        merged["distinct_nontrivial"] += p["distinct_nontrivial"]; merged["complete"] &= p["complete"]; merged["scope"] = p.get("scope")
-        merged["samples"] += p["samples"][:2]
+        merged["complete"] &= p["complete"]; merged["samples"] += p["samples"][:2]
+        nt.update(p["nontrivial_hashes"]); nt_count += p["n_nontrivial"]
         for k, v in p["nfindings"].items(): merged["nfindings"][k] += v
         for f in p["findings"]:
             f = Finding(f); sig = f.signature()
-            if sig not in merged["findings"] or f.size() < merged["findings"][sig].size(): merged["findings"][sig] = f
+            key = (sig, next((i for i, e in enumerate(_known_b()) if matches(e, f)), None))
+            if key not in merged["findings"] or f.size() < merged["findings"][key].size(): merged["findings"][key] = f
+    # shards are disjoint by construction (index % nprocs); the hash sets are merged to count DISTINCT cases across shards and the random tail
+    merged["distinct_nontrivial"] = len(nt)      # conservative: per-worker hash lists are capped at 200k
     return merged
 
 
-# ----------------------------------------------------------------------------- reporting
+# ----------------------------------------------------------------------------- known findings
+_KNOWN = None
 def load_known():
-    path = os.path.join(ROOT, "known_findings.json")
-    return json.load(open(path)) if os.path.exists(path) else []
+    global _KNOWN
+    if _KNOWN is None:
+        path = os.path.join(ROOT, "known_findings.json")
+        _KNOWN = json.load(open(path)) if os.path.exists(path) else []
+    return _KNOWN
+
+
+def _known_b(): return [e for e in load_known() if e.get("status") == "known" and e.get("tier", "B") == "B"]
 
 
 def matches(entry, f):
     if entry.get("status") != "known" or entry["property"] != f["property"]: return False
     m = entry["match"]
-    return all(str(f.get(k, "")).startswith(v) if k != "case_predicate" else True for k, v in m.items() if k in ("kind", "function", "clause")) \
-        and _predicate(m.get("case_predicate"), f["case"])
+    for k in ("kind", "function", "clause"):
+        if k in m and not str(f.get(k, "")).startswith(m[k]): return False
+    return _predicate(m.get("case_predicate"), f["case"])
 
 
 def _predicate(pred, case):
     if not pred: return True
-    return bool(eval(pred, {"__builtins__": {"len": len, "any": any, "all": all, "sorted": sorted, "set": set, "list": list, "range": range}}, {"case": case}))
-
-
-def report(prop, tier, seed, level, merged, coverage_extra, assumptions, wall_s):
-    known = load_known(); new, old = [], []
-    for f in merged["findings"].values():
-        (old if any(matches(e, f) for e in known) else new).append(f)
-    for e in known:
-        if e.get("status") == "known" and e["property"] == prop and any(matches(e, f) for f in merged["findings"].values()):
-            print(f"KNOWN-FINDING: property={prop} {e['what']}")
-    code = 0
-    for f in new:
-        h = hashlib.sha256(json.dumps(dict(f), sort_keys=True, default=str).encode()).hexdigest()[:12]
-        d = os.path.join(ROOT, "replays", prop); os.makedirs(d, exist_ok=True)
-        path = os.path.join(d, f"{h}.json"); json.dump(dict(f), open(path, "w"), indent=1, default=str)
-        print(f"VIOLATION property={prop} replay={path}"); code = 1
-    if merged["crashes"]:
-        print("CHECKER FAULT:\n" + merged["crashes"][0], file=sys.stderr); code = code or 3
-    cov = {"evaluations": merged["calls"], "distinct_nontrivial": merged["distinct_nontrivial"], "rule": coverage_extra.pop("rule"),
-           "samples": merged["samples"][:5], "exhaustive": bool(merged["complete"]), "contract_evaluations": dict(merged["evals"]),
-           "cases": merged["cases"], "scope": merged["scope"]}
-    cov.update(coverage_extra)
-    ev = {"property_id": prop, "tier": tier, "seed": seed, "level": level, "coverage": cov, "assumptions": assumptions,
-          "wall_s": round(wall_s, 2), "violations": len(new)}
-    os.makedirs(os.path.join(ROOT, "evidence"), exist_ok=True)
-    json.dump(ev, open(os.path.join(ROOT, "evidence", f"{prop}.json"), "w"), indent=1, default=str)
-    zero = [n for n, c in coverage_extra.get("required_contracts", {}).items() if merged["evals"].get(n, 0) == 0]
-    if zero:
-        print(f"CHECKER FAULT: contracts never evaluated: {zero}", file=sys.stderr); code = code or 3
-    return code
+    try:
+        return bool(eval(pred, {"__builtins__": {"len": len, "any": any, "all": all, "sorted": sorted, "set": set, "list": list, "range": range, "str": str, "isinstance": isinstance,
+                                                  "dict": dict, "tuple": tuple, "min": min, "max": max, "abs": abs, "sum": sum, "int": int, "float": float, "bool": bool}}, {"case": case or {}}))
+    except Exception:
+        return False
